@@ -73,8 +73,8 @@ META.update({
         'note': E1_NOTE + 'A refusal without manual work is an observation, not a violation.'},
     'C19': {
         'engine': 'E1 world', 'level': 'exploration', 'design_ref': 'DESIGN.md 5 C19',
-        'technique': 'deterministic simulation: webhook re-entry (child-PR and robot-comment events), duplication and reordering; structural invariant after every job plus differential child/commit/parent event delivery from snapshots',
-        'text': 'Up to 3 PRs on overlapping cascades with integration PRs on/off, every webhook the robot itself provokes put on the simulated network and delivered in seeded order and multiplicity, commit events on source/w/q tips. After every job: w/ branches exist only for targets beyond the first, at most one OPEN robot PR per (w/ branch, target), titled and described after its parent; from snapshots an event on a child PR or on a source/w tip must leave the same state as the parent event; decline cleans exactly the parent\'s branches and PRs, merge removes them.',
+        'technique': 'deterministic simulation with fault injection: webhook re-entry (child-PR and robot-comment events), duplication and reordering, jobs killed / partitioned / failed by the host at a drawn remote-mutating operation then restarted and re-delivered; structural invariant after every job, differential child/commit/parent event delivery from snapshots, end-of-run clause after a fault-free settle',
+        'text': 'Up to 3 PRs on overlapping cascades with integration PRs on/off, every webhook the robot itself provokes put on the simulated network and delivered in seeded order and multiplicity, commit events on source/w/q tips. After every job: w/ branches exist only for targets beyond the first, at most one OPEN robot PR per (w/ branch, target), titled and described after its parent; from snapshots an event on a child PR or on a source/w tip must leave the same state as the parent event; decline cleans exactly the parent\'s branches and PRs, merge removes them. Sampled deliveries (and, in a scripted story, the very job that lands a multi-target PR) die, lose the network or are failed by the host before one of their remote-mutating operations; a fresh instance gets the event again. At the end every event is delivered and every build turned green with faults off: a merged PR must keep no integration branch.',
         'note': E1_NOTE + 'The mock host never closes a PR whose source branch vanished, so "no open robot PR without a live parent" is not asserted after merges.'},
     'C20': {
         'engine': 'E1 world', 'level': 'exploration', 'design_ref': 'DESIGN.md 5 C20',
@@ -108,14 +108,14 @@ META.update({
         'note': E5_NOTE + 'The order of discovery is the simulated nondeterminism (git listing order and PYTHONHASHSEED); ancestry questions answer yes (inclusion is C01). A hotfix branch with no tag of its version has an unspecified fix version.'},
     'C11': {
         'engine': 'E5 gates', 'level': 'exploration', 'design_ref': 'DESIGN.md 5 C11',
-        'technique': 'deterministic simulation of Jira editors and API failures between evaluations; refinement of the real jira_checks against the decision list of the statement after every op',
-        'text': 'Histories in which issues are created, deleted, retyped and their fixVersions edited (incl. suffixed and x.y.z.n forms), admins comment bypass_jira_check, the Jira API answers 404 vs 5xx, under drawn settings (jira_keys, prefixes, bypass_prefixes, disable_version_checks, Jira unconfigured, per-author/command-line bypass), source names with/without/lower-case/foreign ticket keys and six cascades. After every op the real jira_checks outcome must be the class the statement prescribes; a 5xx never yields pass.',
+        'technique': 'deterministic simulation of Jira editors and injected Jira API failures (one to four consecutive calls of an evaluation, 401/404/429/5xx); refinement of the real jira_checks against the decision list of the statement after every op',
+        'text': 'Histories in which issues are created, deleted, retyped and their fixVersions edited (incl. suffixed and x.y.z.n forms), admins comment bypass_jira_check, the Jira API answers 404 vs 5xx, under drawn settings (jira_keys, prefixes, bypass_prefixes, disable_version_checks, Jira unconfigured, per-author/command-line bypass), source names with/without/lower-case/foreign ticket keys and six cascades. After every op the real jira_checks outcome must be the class the statement prescribes; a failing Jira never yields pass (judged when every Jira call of the evaluation failed; if a retry got a real answer the issue is judged as it is). Whether the bypass is in force is derived from command line / the author\'s own pr_author_options entry (several users listed, in a drawn order) / an admin comment, not taken from the job.',
         'note': E5_NOTE + 'Expected versions are those of the real cascade (C09 checks them separately); the "repository untouched" clause follows from jira_checks running before any integration branch is created (C12/C19 observe refs on real repositories).'},
     'C14': {
         'engine': 'E3 http', 'level': 'exploration', 'design_ref': 'DESIGN.md 5 C14',
-        'technique': 'deterministic simulation of HTTP clients: the complete request matrix issued in a seeded order interleaved over three clients with session churn against the real Flask app; reference ACL checked after every request on status class and exact task-queue growth',
-        'text': 'Every registered API endpoint and management form (live registries) x 5 methods x 4 session states x well-/ill-formed parameters (branch names around the grammar, pr ids <= 0, missing/extra JSON, bodies shadowing URL parameters), both webhook routes x 4 credentials x 3 repository identities x handled and unhandled event types, on a Bitbucket- and a GitHub-configured instance: 908 cells, all executed in every run, in seeded order. A refused cell answers >= 400 and enqueues nothing; an allowed cell enqueues exactly one job of the endpoint class carrying exactly the validated parameters and the session user.',
-        'note': 'BertE instance is inert (no git); sessions are set through the Flask test client (OAuth not exercised); the forms outgoing HTTP call is looped back into the same app; endpoints unknown to the reference ACL are held to the weaker rule and reported.'},
+        'technique': 'deterministic simulation of HTTP clients and of the OAuth identity provider: the complete request matrix issued in a seeded order interleaved over three clients with session churn (sessions planted, and obtained through the real login route with accepted and refused logins) against the real Flask app; reference ACL checked after every request on status class and exact task-queue growth',
+        'text': 'Every registered API endpoint and management form (live registries) x 5 methods x 4 session states x well-/ill-formed parameters (branch names around the grammar, pr ids <= 0, missing/extra JSON, bodies shadowing URL parameters), plus six session states reached through /api/auth (accepted user / admin; refused: admin handle with a foreign or missing e-mail, user with a foreign e-mail, no user name) for every endpoint and form; both webhook routes x 4 credentials x 9 repository identities (match, other owner, other slug, and six shapes of a missing identity) x handled and unhandled event types, on a Bitbucket- and a GitHub-configured instance; every cell executed in every run, in seeded order. A refused cell answers >= 400 and enqueues nothing; an allowed cell enqueues exactly one job of the endpoint class carrying exactly the validated parameters and the session user.',
+        'note': 'BertE instance is inert (no git); the OAuth identity provider is a table (the browser redirect flow is not exercised, /api/auth and _handle_authorize are real); the forms outgoing HTTP call is looped back into the same app; endpoints unknown to the reference ACL are held to the weaker rule and reported.'},
     'C16': {
         'engine': 'E1 world + E4 hostproto', 'level': 'fault_enumeration', 'design_ref': 'DESIGN.md 5 C16',
         'technique': 'deterministic simulation with fault injection: every git command index of sampled jobs made to fail / hang while printing the credentialed URL (Popen seam), at DEBUG and INFO; scripted GitHub (password, App/JWT) and Bitbucket sessions with failing responses; every sink searched for the secrets',
